@@ -220,6 +220,13 @@ func Canon(v *ds.VMValue) string {
 }
 
 func canon(sb *strings.Builder, v *ds.VMValue, seen map[any]bool, depth int) {
+	if sb.Len() > 1<<18 {
+		// a container that holds the same sub-container many times over (a DAG) has an exponentially long rendering: cut it
+		if !strings.HasSuffix(sb.String(), "<cut>") {
+			sb.WriteString("<cut>")
+		}
+		return
+	}
 	if v == nil {
 		sb.WriteString("NIL")
 		return
